@@ -69,13 +69,33 @@ def tiny_eval(e, env):
 def prefix_search(chk, rid):
   """The prefix-uniquification loop can use every component of the path."""
   repo = chk.repo
-  v = FnView(repo, PF)
-  loops = [x for x in walk_local(v.fi.node) if isinstance(x, ast.While) and
-           isinstance(x.test, ast.Compare) and isinstance(x.test.ops[0], ast.In) and
-           'prefix' in norm(x.test.left)]
-  if len(loops) != 1:
-    raise AnalysisError('ParseFile: prefix uniquification loop not recognised')
-  loop = loops[0]
+  m = repo.by_name('parse')
+  found = []
+  for q, f in m.funcs.items():
+    for x in walk_local(f.node):
+      if isinstance(x, ast.While) and isinstance(x.test, ast.Compare) and \
+          isinstance(x.test.ops[0], ast.In) and 'prefix' in norm(x.test.left):
+        found.append((f, x))
+  if len(found) != 1:
+    raise AnalysisError('parse.py: prefix uniquification loop not recognised (%d candidates)' % len(found))
+  host, loop = found[0]
+  v = FnView(repo, host.fq)
+  # ordering: when the prefix is chosen every import of this file is parsed
+  pf = FnView(repo, PF)
+  if host.fq == PF:
+    pnodes = [n for n in pf.cfg.stmt_nodes() if pf.cfg.stmt[n] is loop]
+  else:
+    pnodes = [n for n, c in pf.calls(host.fq)]
+  if not pnodes:
+    raise AnalysisError('ParseFile does not reach the prefix computation')
+  imps = pf.calls(PI)
+  late = [c for n, c in imps if any(n in pf.cfg.reachable(p) for p in pnodes)]
+  chk.ob(rid, bool(imps) and not late, None,
+         'the per-file prefix is chosen after the imports of the file were parsed',
+         'ParseImport can run after the prefix of the importing file was chosen: '
+         'a file still being parsed has a prefix that is recorded nowhere, so an '
+         'imported file with the same base name picks the same prefix',
+         fi=pf.fi, node=late[0] if late else None)
   step = None
   idxname = None
   guard = None
